@@ -267,6 +267,35 @@ pub fn run(ctx: &Ctx) -> i32 {
             }
         }
     });
+    // 3c. every capacity filled (or nearly) by one run of each mode: the longest messages a symbol can
+    //     carry (3116 digits, 2335 C40 characters ... in 144x144)
+    ctx.par(caps.len() as u64, |c, w| {
+        let cap = caps[c as usize];
+        w.label(|| format!("full-capacity runs, capacity {}", cap));
+        // ASCII digit pairs and plain ASCII
+        for n in (2 * cap).saturating_sub(3)..=2 * cap {
+            let s = vec![b'7'; n];
+            replay_script(&[], &s, &[Seg { mode: Mode::Ascii, len: n, flag: true }], &[cap], 1, w);
+        }
+        for n in cap.saturating_sub(1)..=cap {
+            let s = vec![b'A'; n];
+            if n > 0 {
+                replay_script(&[], &s, &[Seg { mode: Mode::Ascii, len: n, flag: false }], &[cap], 1, w);
+            }
+        }
+        for (mode, ch, num, den) in [(Mode::C40, b'A', 3usize, 2usize), (Mode::Text, b'a', 3, 2), (Mode::X12, b'A', 3, 2), (Mode::Edifact, b'A', 4, 3), (Mode::Base256, 0xE1u8, 1, 1)] {
+            let maxn = cap.saturating_sub(1) * num / den;
+            for n in maxn.saturating_sub(5)..=maxn {
+                if n == 0 {
+                    continue;
+                }
+                let s = vec![ch; n];
+                for flag in [true, false] {
+                    replay_script(&[], &s, &[Seg { mode, len: n, flag }], &[cap], 1, w);
+                }
+            }
+        }
+    });
     // 3b. padding at every position: for every capacity, 0..3 ASCII characters then pads to the end
     ctx.seq(|w| {
         w.label(|| "pads at every position of every capacity".into());
@@ -306,7 +335,7 @@ pub fn run(ctx: &Ctx) -> i32 {
         "rule": "states = (string, script prefix) nodes of the script tree of the reference encoder R6, transitions = script extensions (mode x run length x termination form); every complete script that R6 can legally realise \
 (strict tier: forms spelled out by ISO/IEC 16022) is materialised for up to 5 admissible real symbol capacities, decoded by R5 (model self-consistency, engine error otherwise) and replayed against data::decode_data and decode_str. \
 Programs: all strings over an 8-letter class alphabet up to the tier's length with all scripts (longer strings with a bounded number of latches); every byte value in runs of every mode that can carry it, at every phase of a packing group (0..4 fillers before, 0..2 after), the run ending with an explicit unlatch and ending with the symbol, at the start of the stream and after an ASCII character; all strings over a 7-letter alphabet with high bytes (0x80, 0x9F, 0xE1, 0xFF, RS, A, a) up to length 4 (5); a filler run of 1..kmax characters in each mode (with and without unlatch) followed by every tail of length <= 2 (3) with all scripts; \
-Base256 fields of length 1..1555 (both sides of every multiple of 250) with explicit and with zero length; pads from positions 1..4 to the end of every capacity; macro 05/06 and FNC1 headers. non-trivial = materialised script with a non-ASCII run.",
+Base256 fields of length 1..1555 (both sides of every multiple of 250) with explicit and with zero length; pads from positions 1..4 to the end of every capacity; every capacity filled or nearly filled by a single run of each mode (up to 3116 digits and 2335 C40/Text/X12 characters in 144x144); macro 05/06 and FNC1 headers. non-trivial = materialised script with a non-ASCII run.",
         "exhaustive": true,
         "scripts_materialised": ctx.counter("scripts_materialised"),
         "distinct_run_end_forms": ctx.distinct("run_end_forms"),
